@@ -242,3 +242,9 @@ Proof.
   apply Qle_shift_div_r; [apply qnat_pos; exact Hne|]. rewrite Qmult_comm. apply qsum_upper.
   apply Forall_forall. intros x Hx. apply (top_of_accepted dcf x Hx).
 Qed.
+
+(* ---------- support for the regenerated obligations (Gen/voronoi_gen.v): the fence as a formula of the quartiles ---------- *)
+Definition fence_formula (q1 q3 : Q) : Q := q3 + (3 # 2) * (q3 - q1).
+
+Lemma fence_is_formula dcf : fence dcf = fence_formula (percentile (qsort dcf) 1 4) (percentile (qsort dcf) 3 4).
+Proof. reflexivity. Qed.
